@@ -35,6 +35,13 @@ static int vp_x_discover(struct hwloc_backend *b, struct hwloc_disc_status *d);
 static int vp_x_discover_io(struct hwloc_backend *b, struct hwloc_disc_status *d);
 static void vp_x_filters(struct hwloc_topology *t);
 #include "vp_seed.h"
+#ifdef VP_CBMC
+/* a NULL type string is reported at the call and the path ends there (reading through NULL would go on with unconstrained bytes
+ * through every loop of the type parser: no verdict) */
+static int vp_type_sscanf_nn(const char *s, hwloc_obj_type_t *tp, union hwloc_obj_attr_u *ap, size_t sz)
+{ __CPROVER_assert(s != 0, "hwloc_type_sscanf called with a NULL string"); __CPROVER_assume(s != 0); return hwloc_type_sscanf(s, tp, ap, sz); }
+#define hwloc_type_sscanf vp_type_sscanf_nn
+#endif
 #include "hwloc/topology-xml.c"
 #include "vp_xmltree.h"
 
